@@ -204,6 +204,9 @@ def pinrun (input implOut : Json) : Option (Json × Bool) := do
     | some (.str "accept") => some Spec.C10.DevAns.accept
     | some (.str "refuse") => some .refuse
     | some (.str "error") => some .error
+    | some (.str "linkW") => some .link
+    | some (.str "linkR") => some .link
+    | some (.str "timeout") => some .timeout
     | _ => none
   let crash ← match input.get? "crash" with
     | some (.str "none") => some Spec.C10.Crash.none
